@@ -178,9 +178,15 @@ func (StepMonitor) OnWrite(x *Ctx, w *Write) {
 			return
 		}
 		step := steps[ai-1]
-		last := int(ai) == len(steps) && step.Replicas != nil && step.Replicas.StrVal == "100%"
-		if last {
-			return
+		// "a last canary step that already covers 100% needs no approval": judged on what the step covers (every
+		// replica of the workload), not on how it is spelt
+		if int(ai) == len(steps) && step.Replicas != nil {
+			if step.Replicas.StrVal == "100%" {
+				return
+			}
+			if v := ViewWorkload(x.W, x.Sc); v != nil && v.Replicas > 0 && scaled(step.Replicas, v.Replicas) >= v.Replicas {
+				return
+			}
 		}
 		if step.Pause.Duration == nil {
 			x.Violate("C02/step/manual-pause-skipped", fmt.Sprintf("step %d requires manual approval but the controller moved StepPaused -> StepReady by itself", ai))
@@ -318,7 +324,9 @@ func (ExposureMonitor) OnWrite(x *Ctx, w *Write) {
 		x.Violate("C01/exposure/exceeds-authorised-step/"+sc.Kind+"-"+sc.Style, fmt.Sprintf("BatchRelease controller set %s on a %d-replica workload: %d new-revision pods allowed, but the authorised batch %d (%s, batchPartition=%s) plans %d",
 			v.KnobText, v.Replicas, v.Exposure, authorised, cr.String(), fmtInt32(plan.BatchPartition), planned))
 	}
-	if v.Exposure < prev && !requested(x.Mon, "scale") && x.Pre != nil && x.Pre.BatchRelease != nil {
+	// A partition is re-based when the workload is scaled (fewer replicas, fewer pods to update); the replica
+	// count of the extra canary Deployment is never lowered while the release goes on, scaled or not.
+	if v.Exposure < prev && (sc.Style == "canary" || !requested(x.Mon, "scale")) && x.Pre != nil && x.Pre.BatchRelease != nil {
 		x.Violate("C01/monotone/knob-moved-back/"+sc.Kind+"-"+sc.Style, fmt.Sprintf("BatchRelease controller moved the update knob back toward the old revision while the release moves forward: exposure %d -> %d (%s)", prev, v.Exposure, v.KnobText))
 	}
 }
@@ -398,6 +406,16 @@ func (BatchStatusMonitor) OnWrite(x *Ctx, w *Write) {
 		x.Count("C11 Ready reports judged")
 		if ok, why := readyHolds(after, v); !ok {
 			x.Violate("C11/ready/reported-ready-but-not/"+sc.Kind+"-"+sc.Style, "BatchRelease reported batch "+fmt.Sprint(st.CurrentBatch)+" Ready although "+why)
+		}
+	}
+	// "if the plan changes, the state falls back rather than staying Ready": the status write that acknowledges a new
+	// plan (observedReleasePlanHash changes) must not carry Ready for a batch the workload does not satisfy under
+	// that plan
+	if before != nil && before.Status.ObservedReleasePlanHash != "" && before.Status.ObservedReleasePlanHash != after.Status.ObservedReleasePlanHash &&
+		st.CurrentBatchState == rolloutsv1beta1.ReadyBatchState && !becameReady && after.Status.Phase == rolloutsv1beta1.RolloutPhaseProgressing {
+		x.Count("C11 plan acknowledgements that keep Ready judged")
+		if ok, why := readyHolds(after, v); !ok {
+			x.Violate("C11/fallback/plan-changed-still-ready/"+sc.Kind+"-"+sc.Style, "BatchRelease acknowledged a changed plan and kept batch "+fmt.Sprint(st.CurrentBatch)+" Ready although "+why)
 		}
 	}
 	if after.Status.Phase == rolloutsv1beta1.RolloutPhaseCompleted && (before == nil || before.Status.Phase != rolloutsv1beta1.RolloutPhaseCompleted) {
